@@ -236,7 +236,10 @@ pub fn run_lock_case(rng: &mut Rng, idx: usize, out: &mut LockOut) {
                     }
                     std::thread::sleep(Duration::from_millis(2));
                 }
-                let sig = if flavour == 3 { "c20-reopen-busy-after-dropped-warmup-session" } else { "c20-reopen-busy-after-drop" };
+                // the handle that was dropped had warm-up enabled either by the generated configuration
+                // or by flavour 3: same situation, same signature
+                let warm_handle = cfg.warm || (flavour == 3);
+                let sig = if flavour >= 2 && warm_handle { "c20-reopen-busy-after-dropped-warmup-session" } else { "c20-reopen-busy-after-drop" };
                 out.violations.push((sig.into(), format!("after dropping the session ({}) and then the handle, an immediate open in the same process fails: {}; it {} after {} ms", label, msg, if ok { "succeeds" } else { "still fails" }, t0.elapsed().as_millis()), format!("in-process: open (warm_up={}), begin_session, read, warm_up, drop(session), drop(handle), open  -- cfg {}", cfg2.warm, cfg2.to_line())));
             }
         }
